@@ -23,7 +23,7 @@ def run_func(exe, mode, arg, out, env=None, extra=()):
 
 def oracle(chk, name, module, cfg, out, what, keyprefix):
     res = vlib.tlc(os.path.join(SPEC, module), os.path.join(SPEC, cfg), workers=1, env={"TRACE": out}, timeout=900)
-    m = re.search(r'"BAD", \{([^}]*)\}', res["out"])
+    m = re.search(r'"BAD",\s*\{([^}]*)\}', res["out"])
     n = re.search(r'"NRECS", (\d+)', res["out"])
     if not m or not n:
         raise vlib.Broken("oracle evaluation %s did not complete:\n%s" % (name, res["out"][-2000:]))
